@@ -270,6 +270,12 @@ def harness_parallel(sub, cases, shards=None, **kw):
     chunks = [cases[i::shards] for i in range(shards)]
     with ThreadPoolExecutor(shards) as ex:
         outs = list(ex.map(lambda ch: harness(sub, ch, **kw), chunks))
+    # a shard whose harness process died as a whole (no result for any of its cases: e.g. the port it had picked for its
+    # in-process server was taken by another process in the meantime) says nothing about the cases: run it once more
+    for k in range(shards):
+        r, info = outs[k]
+        if chunks[k] and (not r or all(x is None for x in r[:len(chunks[k])])):
+            outs[k] = harness(sub, chunks[k], **kw)
     res = [None] * len(cases)
     infos = []
     for k, (r, info) in enumerate(outs):
